@@ -13,6 +13,7 @@ import (
 	"encoding/json"
 	"errors"
 	"os"
+	"path"
 	"runtime/trace"
 	"strings"
 	"time"
@@ -48,7 +49,31 @@ var (
 //verif:stub os.WriteFile
 func vsWriteFile(name string, data []byte, perm os.FileMode) error {
 	vsWrites = append(vsWrites, name)
+	if vsDiskMode {
+		vsDiskAdd(path.Dir(name), metadataFileNameFromPath(name))
+	}
 	return nil
+}
+
+// ---- an explicit "disk" for the interrupted-run harness (H_C05_crashRun): the
+// metadata files present in each metadata directory.  In disk mode glob,
+// _stage_defs reads, writes and removals go through it, so that a second mrp
+// instantiated on the same directory sees what the first one left.
+var (
+	vsDiskMode bool
+	vsDisk     map[string]map[MetadataFileName]struct{}
+)
+
+func vsDiskAdd(dir string, name MetadataFileName) {
+	if vsDisk[dir] == nil {
+		vsDisk[dir] = map[MetadataFileName]struct{}{}
+	}
+	vsDisk[dir][name] = struct{}{}
+}
+
+func vsDiskHas(dir string, name MetadataFileName) bool {
+	_, ok := vsDisk[dir][name]
+	return ok
 }
 
 //verif:stub os.ReadFile
@@ -92,6 +117,9 @@ func vsReadInto(self *Metadata, name MetadataFileName, target interface{}) error
 		return nil
 	}
 	if sd, ok := target.(**StageDefs); ok {
+		if vsDiskMode && !vsDiskHas(self.path, name) && !self.exists(name) {
+			return errors.New("open _stage_defs: no such file")
+		}
 		defs := &StageDefs{}
 		for i := 0; i < vsChunks; i++ {
 			defs.ChunkDefs = append(defs.ChunkDefs, &ChunkDef{})
@@ -281,6 +309,13 @@ var (
 //verif:stub os.RemoveAll
 func vsRemoveAll(p string) error {
 	vsRemovedAll = append(vsRemovedAll, p)
+	if vsDiskMode {
+		for d := range vsDisk {
+			if d == p || (len(d) > len(p) && d[:len(p)] == p && d[len(p)] == '/') {
+				delete(vsDisk, d)
+			}
+		}
+	}
 	return nil
 }
 
@@ -306,6 +341,13 @@ func vsProcSignal(p *os.Process, sig os.Signal) error {
 
 //verif:stub (*github.com/martian-lang/martian/martian/core.Metadata).glob
 func vsMetaGlob(self *Metadata) ([]string, error) {
+	if vsDiskMode {
+		var paths []string
+		for name := range vsDisk[self.path] {
+			paths = append(paths, self.path+"/_"+string(name))
+		}
+		return paths, nil
+	}
 	if vsGlobFromCache {
 		// the cache mirrors the directory in this harness
 		var paths []string
@@ -1764,4 +1806,318 @@ func H_C05_chunkIdentity(n int) {
 		verifAssert(a.finalPath == b.finalPath, "C05: a re-attached mrp looks for each chunk in the directory the interrupted mrp created for it")
 		verifAssert(f.chunks[i].fqname == g.chunks[i].fqname && a.journalPath == b.journalPath, "C05/C11: a chunk keeps its name and journal name across a restart")
 	}
+}
+
+// ---- an interrupted run, resumed by a second mrp on the same directory ----
+
+const vsCrashSrc = `
+stage PRE(
+    in  int x,
+    src comp "bin",
+)
+
+stage A(
+    in  int  x,
+    out int  o,
+    out bool flag,
+    src comp "bin",
+)
+
+stage B(
+    in  int x,
+    out int o,
+    src comp "bin",
+) split (
+    in  int c,
+    out int d,
+)
+
+stage C(
+    in  int x,
+    out int o,
+    src comp "bin",
+)
+
+stage D(
+    in  int x,
+    out int o,
+    src comp "bin",
+)
+
+pipeline P(
+    in  int x,
+    out int o,
+    out int d,
+)
+{
+    call PRE(
+        x = self.x,
+    ) using (
+        preflight = true,
+    )
+
+    call A(
+        x = self.x,
+    )
+
+    call B(
+        x = A.o,
+    )
+
+    call C(
+        x = B.o,
+    )
+
+    call D(
+        x = self.x,
+    )
+
+    return (
+        o = C.o,
+        d = D.o,
+    )
+}
+
+call P(
+    x = 1,
+)
+`
+
+func vsCrashGraph(key string) *Pipestance {
+	disableUniquification = false
+	vsDisabled, vsResolveErr, vsDefsErr, vsReadErr = false, false, false, false
+	vsOutsOK, vsChunkOutOK = true, true
+	return verifCached("vsCrashGraph"+key, func() any {
+		rt := vsRuntime()
+		saveMode, saveDisk := vsDiskMode, vsDisk
+		vsDiskMode, vsDisk = true, map[string]map[MetadataFileName]struct{}{} // an empty directory
+		_, _, ps, err := rt.instantiatePipeline([]byte(vsCrashSrc), "/m/p.mro", "ps", "/ps", nil, "none", nil, false, true, context.Background())
+		vsDiskMode, vsDisk = saveMode, saveDisk
+		if err != nil {
+			panic("fixture does not instantiate: " + err.Error())
+		}
+		return ps
+	}).(*Pipestance)
+}
+
+// all job-bearing metadata of a pipestance (split / chunk / join of every
+// stage fork), by fully qualified name
+func vsJobMetas(ps *Pipestance) map[string]*Metadata {
+	out := map[string]*Metadata{}
+	for _, n := range ps.allNodes() {
+		if n.call.Kind() != syntax.KindStage {
+			continue
+		}
+		for _, f := range n.forks {
+			out[f.split_metadata.fqname] = f.split_metadata
+			out[f.join_metadata.fqname] = f.join_metadata
+			for _, c := range f.chunks {
+				out[c.metadata.fqname] = c.metadata
+			}
+		}
+	}
+	return out
+}
+
+// a submitted job advances: 0 queued locally, 1 started, 2 running, 3 complete
+func vsJobProgress(m *Metadata, to int) {
+	if to >= 1 {
+		delete(m.contents, QueuedLocally)
+	}
+	if to >= 2 {
+		m.contents[LogFile] = struct{}{}
+	}
+	if to >= 3 {
+		m.contents[CompleteFile] = struct{}{}
+		if len(m.fqname) > 6 && m.fqname[len(m.fqname)-6:] == ".split" {
+			m.contents[StageDefsFile] = struct{}{}
+		}
+	}
+}
+
+// H_C05_crashRun(crash, mode): mrp runs the pipeline above from scratch (a
+// preflight, a chain A -> B (splitting into two chunks) -> C, an independent
+// D); every running job completes between two rounds of the run loop.  After
+// `crash` rounds mrp is killed outright: each job in flight has made arbitrary
+// progress (still queued locally, started, running, or complete).  mode 0 =
+// local jobs (they die with mrp), mode 1 = cluster jobs (they live on and those
+// not yet complete arbitrarily finish before the restart or after it).  A
+// second mrp is then started on the same directory with the same invocation:
+// instantiation (chunks rebuilt from _stage_defs), RestoreForks,
+// RestartRunningNodes, Reset, RestartLocalJobs, LoadMetadata, the run loop.
+//
+//	C05: no job whose completion was recorded before the interruption is
+//	     executed again; a job the interruption killed, or that had not started,
+//	     is executed (again) exactly once; a cluster job that survived is not
+//	     submitted a second time; the resumed pipestance runs to completion.
+func H_C05_crashRun(crash, mode int) {
+	ctx := context.Background()
+	disableDiskSpaceCheck = true
+	vsChunks = 2
+	vsRealOuts = LazyArgumentMap{"o": json.RawMessage("1"), "flag": json.RawMessage("false"), "d": json.RawMessage("1")}
+	jobMode := localMode
+	if mode != 0 {
+		jobMode = "sge"
+	}
+	// ---- the first mrp
+	vsDiskMode, vsDisk = false, nil
+	psA, psB := vsCrashGraph("A"), vsCrashGraph("B")
+	psA.node.top.rt.Config.JobMode = jobMode
+	psA.node.top.rt.LocalJobManager = &LocalJobManager{}
+	psA.metadata.contents[Lock] = struct{}{}
+	vsGlob, vsExec = nil, nil
+	psA.LoadMetadata(ctx)
+	progress := map[*Metadata]int{}
+	for r := 0; r < crash; r++ {
+		psA.StepNodes(ctx)
+		last := r == crash-1
+		for _, m := range vsExec {
+			if progress[m] >= 3 {
+				continue
+			}
+			to := 3
+			if last {
+				// the moment of the kill: arbitrary progress
+				v := verifInt("progress at the kill")
+				verifAssume(verifAll(v >= 0, v <= 3))
+				to = verifConcretize(v)
+			}
+			progress[m] = to
+			vsJobProgress(m, to)
+		}
+	}
+	verifCover("first mrp killed")
+	// what is on disk
+	disk := map[string]map[MetadataFileName]struct{}{}
+	snapshot := func(m *Metadata) {
+		files := map[MetadataFileName]struct{}{}
+		for name := range m.contents {
+			files[name] = struct{}{}
+		}
+		disk[m.path] = files
+	}
+	snapshot(psA.metadata)
+	for _, n := range psA.allNodes() {
+		for _, m := range n.collectMetadatas() {
+			snapshot(m)
+		}
+	}
+	completeAtKill := map[string]bool{}
+	inFlight := map[string]bool{}
+	for fq, m := range vsJobMetas(psA) {
+		if _, ok := m.contents[CompleteFile]; ok {
+			completeAtKill[fq] = true
+		} else if _, ok := m.contents[JobInfoFile]; ok {
+			inFlight[fq] = true
+		}
+	}
+	// non-splitting stages "complete" their split without a job: those are
+	// not jobs
+	submittedA := map[string]bool{}
+	for _, m := range vsExec {
+		submittedA[m.fqname] = true
+	}
+	// cluster jobs live on: some finish before the second mrp looks
+	survivors := map[string]bool{}
+	if mode != 0 {
+		for fq := range inFlight {
+			if _, queued := disk[vsJobMetas(psA)[fq].path][QueuedLocally]; queued {
+				continue // never reached the cluster
+			}
+			survivors[fq] = true
+			if verifBool("finished while no mrp was running") {
+				m := vsJobMetas(psA)[fq]
+				disk[m.path][LogFile] = struct{}{}
+				disk[m.path][CompleteFile] = struct{}{}
+				if len(fq) > 6 && fq[len(fq)-6:] == ".split" {
+					disk[m.path][StageDefsFile] = struct{}{}
+				}
+				completeAtKill[fq] = true
+			}
+		}
+	}
+	// ---- the second mrp, on the same directory
+	vsDiskMode, vsDisk = true, disk
+	vsPidZero, vsPidDead, vsJobInfoErr = false, mode == 0, false
+	psB.node.top.rt.Config.JobMode = jobMode
+	psB.node.top.rt.LocalJobManager = &LocalJobManager{}
+	psB.metadata.contents[Lock] = struct{}{}
+	for _, n := range psB.allNodes() {
+		for _, f := range n.forks {
+			// what NewFork does on a directory that already has files
+			f.path = ""
+			f.metadatasCache = nil
+			f.updateId(f.forkId)
+		}
+	}
+	vsExec = nil
+	psB.RestoreForks(ctx)
+	err := psB.RestartRunningNodes(jobMode, ctx)
+	verifAssert(err == nil, "C05: re-attaching to an interrupted pipestance succeeds")
+	err = psB.Reset()
+	if err == nil {
+		err = psB.RestartLocalJobs(jobMode)
+	}
+	verifAssert(err == nil, "C05: resetting the interrupted jobs succeeds")
+	psB.LoadMetadata(ctx)
+	verifCover("second mrp attached")
+	quiet := false
+	done := map[*Metadata]bool{}
+	for r := 0; r < 16 && !quiet; r++ {
+		before := len(vsExec)
+		changed := psB.StepNodes(ctx)
+		finished := 0
+		for _, m := range vsExec {
+			if !done[m] {
+				vsJobProgress(m, 3)
+				done[m] = true
+				finished++
+			}
+		}
+		// surviving cluster jobs finish at some point: here, after the first round
+		if r == 0 {
+			for fq := range survivors {
+				if !completeAtKill[fq] {
+					if m := vsJobMetas(psB)[fq]; m != nil {
+						if _, resubmitted := done[m]; !resubmitted {
+							vsJobProgress(m, 3)
+							finished++
+						}
+					}
+				}
+			}
+		}
+		if finished == 0 && len(vsExec) == before && !changed {
+			quiet = true
+		}
+	}
+	verifAssert(quiet, "C05: the resumed run comes to an end")
+	count := map[string]int{}
+	for _, m := range vsExec {
+		count[m.fqname]++
+	}
+	for fq, n := range count {
+		verifAssert(n == 1, "C03/C05: the resumed mrp submits no job twice")
+		verifAssert(!completeAtKill[fq], "C05: a job whose completion was recorded before the interruption is not executed again")
+		if mode != 0 {
+			verifAssert(!survivors[fq], "C05: a cluster job that survived the interruption is not submitted a second time")
+		}
+	}
+	for fq := range vsJobMetas(psB) {
+		isJob := submittedA[fq] || count[fq] > 0
+		if !isJob {
+			continue
+		}
+		if !completeAtKill[fq] && !(mode != 0 && survivors[fq]) {
+			verifAssert(count[fq] == 1, "C05: a job that had not completed (killed with mrp, or never started) is executed by the resumed mrp")
+		}
+	}
+	for _, n := range psB.allNodes() {
+		for _, f := range n.forks {
+			st := f.getState()
+			verifAssert(st == Complete || st == DisabledState, "C05: after the resumed run every fork of every call is complete")
+		}
+	}
+	verifAssert(psB.GetState(ctx) == Complete, "C05: an interrupted pipestance, restarted, runs to completion")
+	vsDiskMode, vsDisk = false, nil
 }
